@@ -331,6 +331,15 @@ def main():
     thms, bad_ax = audit(built_mods) if built_mods else ([], [])
     for b in bad_ax:
         failed_obl.append({"target": b["theorem"], "errors": ["axioms: " + ",".join(b["axioms"])]})
+    # thorough tier: the compiled proofs are re-checked by the toolchain's independent checker
+    rechecked = None
+    if tier == "thorough" and built_mods and shutil.which("leanchecker"):
+        with Lock("lake"):
+            rc, out = run(["lake", "env", "leanchecker"] + built_mods, cwd=LEAN, timeout=3600)
+        rechecked = (rc == 0)
+        if rc != 0:
+            failed_obl.append({"target": "leanchecker", "errors": [out[-600:]]})
+    notes["leanchecker"] = rechecked
     # translator errors relevant to this property
     rel = [e for e in notes["translator_errors"] if any(re.search(p, e) for p in cfg.get("translator_scope", [r"."]))]
     for e in rel:
@@ -465,6 +474,7 @@ def finish(prop, tier, seed, t0, cfg, stats, samples, thms, rc, notes, failed_ob
         "samples": samples if samples else [{"note": "no correspondence case ran"}],
         "exhaustive": bool(cfg.get("exhaustive", {}).get(tier, False)),
         "translator_notes": notes.get("translator_errors", [])[:20],
+        "rechecked_by_leanchecker": notes.get("leanchecker"),
         "tree": repo_rev(),
     }
     if cov["discharged"] < 1:
